@@ -12,7 +12,7 @@ TAGS = {
     "C04": ["C04-keypress", "C04-mods-down-before"],
     "C05": ["C05-foreign-event", "C05-foreign-held", "C05-empty-layout", "C05-release", "C05-stays-ineffect"],
     "C07": ["C07-fired", "C07-window-release"],
-    "C08": ["C08-press-while-absorbed", "C08-refire", "C08-absorbing-fired"],
+    "C08": ["C08-press-while-absorbed", "C08-refire", "C08-absorbing-fired", "C08-counts-again"],
     "C09": ["C09-special-fired", "C09-ignored-event", "C09-cancelling-event"],
     "C19": ["C19-events", "RA-events"],
     "C14": [],
